@@ -101,7 +101,11 @@ TIndex    == /\ IsEvent("index") /\ (Ev.t = -1 \/ Ev.t \in Retained)
              /\ LET b == GetByIndex(TreeOf(Ev.t), Ev.n) IN
                   IF b = <<>> THEN Ev.bk = 0 ELSE (Ev.bk = b[1] /\ Ev.bv = b[2])
 
-TraceNext == TSaveCS \/ TIter \/ TIndex \/ TraceReset \/ TSet \/ TSetNil \/ TRemove \/ TSave \/ TRollback \/ TReopen \/ TLoad \/ TLvfo \/ TDelTo \/ TVersioned
+\* export of a retained version imported into an empty store; the history continues there
+TImport   == /\ IsEvent("import") /\ ImportSwitch(Ev.t, Ev.fast) /\ ~Ev.err /\ Obs
+             /\ Ev.exp = Post(Lst.r.tree)
+
+TraceNext == TImport \/ TSaveCS \/ TIter \/ TIndex \/ TraceReset \/ TSet \/ TSetNil \/ TRemove \/ TSave \/ TRollback \/ TReopen \/ TLoad \/ TLvfo \/ TDelTo \/ TVersioned
 
 TraceSpec == TraceInit /\ [][TraceNext]_tvars
 
